@@ -30,7 +30,7 @@ TRUSTED = ["guarded hook in CompilerPassGatherCode.run (add-only)", "vf/ic10_vm.
 
 def plan(tier, seed):
     q = tier == "quick"
-    tasks = pool.batches("pressure", 500 if q else 7000, 10) + pool.batches("gen", 450 if q else 7000, 10) + pool.batches("echo", 250 if q else 4000, 10) + pool.batches("layout", 200 if q else 3000, 10) + pool.batches("limit", 60 if q else 400, 10) + pool.batches("corpus", len(workload.corpus()), 2)
+    tasks = pool.batches("pressure", 500 if q else 7000, 10) + pool.batches("gen", 450 if q else 7000, 10) + pool.batches("echo", 200 if q else 4000, 10) + pool.batches("tail", 200 if q else 3000, 10) + pool.batches("layout", 200 if q else 3000, 10) + pool.batches("limit", 60 if q else 400, 10) + pool.batches("corpus", len(workload.corpus()), 2)
     for hz in ("reuse_for_target", "copy_assign"):
         tasks += pool.batches(f"defect:{hz}", 20 if q else 200, 10)
     return dict(tasks=tasks, nworkers=14, time_cap=85 if q else 880, env_extra={"PYTRAPIC_VERIF": "1"})
@@ -54,6 +54,8 @@ def gen_case(task, i):
         src, info = gen_shapes.pressure_program(r, k=12 + (i % 10), where=r.choice(["main", "function", "across_call"]))
     elif st == "echo":
         src = gen_shapes.echo_program(r)
+    elif st == "tail":
+        src = gen_shapes.tail_program(r)
     elif st == "layout":
         src = gen_shapes.layout_mutation(workload.gen_program(ID, "gen", i + 50000)[0]["src"], r)
     elif st == "corpus":
@@ -61,6 +63,8 @@ def gen_case(task, i):
     else:
         src = workload.gen_program(ID, st, i)[0]["src"]
     vs = [dict(append_version=False), dict(append_version=False, inline_functions=False), dict(r.choice(CORNERS), append_version=False, remove_labels=r.random() < 0.5)]
+    if st == "tail":
+        vs = [dict(append_version=False, tail_call_optimization=True, inline_functions=False), dict(append_version=False, tail_call_optimization=True), dict(append_version=False, tail_call_optimization=True, inline_functions=False, use_push_pop_functions=True)]
     return dict(src=src, vectors=vs, env_seeds=[f"{i}:0", f"{i}:1", f"{i}:2"], stream=st, info=info)
 
 
